@@ -11,9 +11,12 @@ package c02
 
 import (
 	"bytes"
+	"context"
 	"fmt"
 	"io"
 	"os"
+	"os/exec"
+	"time"
 	"path/filepath"
 	"runtime"
 	"strings"
@@ -40,16 +43,17 @@ func (d *D) Level() string    { return "exploration" }
 type tierCfg struct {
 	l1, stream int
 	budget     int
+	native     int // the real binary in a subprocess under a wall-clock bound: graphics built-ins with edge values on the SVG platform
 }
 
 func cfg(tier string) tierCfg {
 	if tier == "thorough" {
-		return tierCfg{l1: 1200000, stream: 300000, budget: 20000}
+		return tierCfg{l1: 1200000, stream: 300000, budget: 20000, native: 20000}
 	}
-	return tierCfg{l1: 6000, stream: 2000, budget: 6000}
+	return tierCfg{l1: 6000, stream: 2000, budget: 6000, native: 640}
 }
 
-func (d *D) Count(tier string) int { c := cfg(tier); return c.l1 + c.stream }
+func (d *D) Count(tier string) int { c := cfg(tier); return c.l1 + c.stream + c.native }
 
 // readers are programs for the stream scenarios.
 var readers = []string{
@@ -68,6 +72,9 @@ var readers = []string{
 // Base builds item idx.
 func (d *D) Base(idx int, ctx *core.Ctx) *core.Scenario {
 	c := cfg(ctx.Tier)
+	if idx >= c.l1+c.stream {
+		return d.nativeBase(idx-(c.l1+c.stream), idx, ctx)
+	}
 	if idx >= c.l1 {
 		return d.streamBase(idx, ctx)
 	}
@@ -116,6 +123,133 @@ func (d *D) Base(idx int, ctx *core.Ctx) *core.Scenario {
 		sc.Schedule.ClockCostNs = int64([]int{5_000, 20_000, 200_000}[r.Intn(3)])
 	}
 	return sc
+}
+
+// graphics built-ins with one or two edge values each; %n is a number, %s a string
+var gfxTemplates = []string{"move %n %n", "line %n %n", "rect %n %n", "circle %n", "width %n", "gridn %n \"red\"", "ellipse 50 50 %n %n", "ellipse 50 50 10 5 %n", "ellipse 50 50 10 5 0 %n %n",
+	"dash %n %n", "dash %n", "poly [%n %n] [10 10] [20 5]", "poly [%n %n]", "poly", "text (sprint %n)", "font {size:%n}", "font {letterspacing:%n}", "font {weight:%n}", "move %n %n\ntext \"a<b&c\\\"d>\"",
+	"color %s", "fill %s", "stroke %s", "linecap %s", "clear %s", "text %s", "font {family:%s}", "font {style:%s}", "gridn %n %s", "grid", "clear", "move %n 50\nline 50 %n\ncircle %n"}
+
+var gfxNums = []string{"0", "(-1)", "(-0)", "0.5", "(100/11)", "(100/15)", "(100/60)", "0.000000001", "1000000000", "(0/0)", "(1/0)", "(-1/0)", "33.333", "101", "(-100)", "2", "(100/3)", "0.1"}
+
+var gfxStrs = []string{"\"red\"", "\"\"", "\"none\"", "\"hsl(0deg 100% 50%)\"", "\"a<b&\\\"c'>\"", "\"é日本𝄞\"", "\"#ff000080\"", "\"round\"", "\"no such thing\"", "(\"x\" * 300)"}
+
+// nativeBase: one drawing program for the real binary with --svg-out. Systematic: item j walks
+// through templates × values, so that every built-in meets every edge value in the thorough tier.
+func (d *D) nativeBase(j, idx int, ctx *core.Ctx) *core.Scenario {
+	sc := &core.Scenario{Property: "C02", Seed: ctx.Seed, Index: idx, Level: "cli-native", Kind: "native-graphics", ReplayExact: true}
+	k := j + int(ctx.Seed%89)*37
+	t := gfxTemplates[k%len(gfxTemplates)]
+	k /= len(gfxTemplates)
+	for strings.Contains(t, "%n") {
+		t = strings.Replace(t, "%n", gfxNums[k%len(gfxNums)], 1)
+		k = k/len(gfxNums) + 7
+	}
+	for strings.Contains(t, "%s") {
+		t = strings.Replace(t, "%s", gfxStrs[k%len(gfxStrs)], 1)
+		k = k/len(gfxStrs) + 3
+	}
+	if strings.HasPrefix(t, "gridn 0.000000001 ") {
+		// a spacing far below the line width: see known_findings.json; item 0 of this layer is that case, once
+		t = strings.Replace(t, "0.000000001", "0.001", 1)
+	}
+	if j == 0 {
+		t = "gridn 0.000000001 \"red\""
+	}
+	sc.Program = "width 2\ncolor \"blue\"\nmove 10 10\n" + t + "\ncircle 3\nprint \"done\"\n"
+	sc.Argv = []string{"--svg-out", "-"}
+	return sc
+}
+
+// runNative runs the real evy binary (built from the unrewritten tree) in a subprocess under a
+// wall-clock bound. A tiny drawing program ends within milliseconds; one that is still running
+// after the bound is a host that hangs (bounded liveness), one that dies with a Go stack trace a
+// host crash.
+func (d *D) runNative(sc *core.Scenario, ctx *core.Ctx) *core.Violation {
+	bin := filepath.Join(core.ScratchDir, "bin", "evy")
+	if _, err := os.Stat(bin); err != nil {
+		if ctx != nil {
+			ctx.Inc("native_skipped_no_binary", 1)
+		}
+		return nil
+	}
+	pre := &core.Result{}
+	core.InstallSchedule(&sc.Schedule)
+	if core.ParseProgram(sc.Program, pre) == nil {
+		if ctx != nil {
+			ctx.Inc("evaluations", 1)
+			ctx.Inc("programs_rejected_by_parser", 1)
+		}
+		return nil
+	}
+	d.n++
+	path := filepath.Join(d.workdir(), fmt.Sprintf("n%d.evy", d.n%32))
+	if err := os.WriteFile(path, []byte(sc.Program), 0o644); err != nil {
+		panic(err)
+	}
+	const bound = 20 * time.Second
+	cctx, cancel := context.WithTimeout(context.Background(), bound)
+	defer cancel()
+	// own, smaller memory fence: a program that collects without end fails fast instead of filling the machine
+	shArgs := append([]string{"-c", "ulimit -v 2500000; exec \"$0\" \"$@\"", bin, "run", "--rand-seed", "1"}, append(append([]string{}, sc.Argv...), path)...)
+	cmd := exec.CommandContext(cctx, "sh", shArgs...)
+	var so, se bytes.Buffer
+	cmd.Stdout, cmd.Stderr = &capped{w: &so, n: 1 << 20}, &capped{w: &se, n: 1 << 20}
+	core.HeartbeatNow()
+	err := cmd.Run()
+	core.HeartbeatNow()
+	code := 0
+	if ee, ok := err.(*exec.ExitError); ok {
+		code = ee.ExitCode()
+	}
+	if ctx != nil {
+		ctx.Inc("evaluations", 1)
+		ctx.Inc("native_process_runs", 1)
+		ctx.Inc(fmt.Sprintf("native_status:%d", code), 1)
+		ctx.Distinct(prng.HashString("native" + sc.Program))
+	}
+	obs := map[string]any{"args": append([]string{"run"}, sc.Argv...), "status": code, "stderr": trunc(strings.ReplaceAll(se.String(), path, "PROGRAM"), 400), "stdout_bytes": so.Len()}
+	if cctx.Err() != nil {
+		return &core.Violation{Oracle: "no-host-hang", Signature: "host-hang:native:" + sigOf(firstCall(sc.Program)),
+			Expected: fmt.Sprintf("execution ends (normal completion, Evy panic, exit, failed test); this program was still running after %v of wall-clock time", bound),
+			Observed: obs, Match: map[string]string{"outcome": "host-hang", "edge_call": firstCall(sc.Program)}}
+	}
+	if strings.Contains(se.String(), "goroutine ") || strings.Contains(se.String(), "fatal error:") {
+		return &core.Violation{Oracle: "no-host-panic", Signature: "host-panic:native:" + sigOf(firstLine(se.String())),
+			Expected: "execution never crashes the host runtime", Observed: obs, Match: map[string]string{"outcome": "host-panic", "top_evy_frame": "native", "value": sigOf(firstLine(se.String())), "edge_call": firstCall(sc.Program)}}
+	}
+	if strings.Contains(se.String(), "internal error") {
+		return &core.Violation{Oracle: "no-internal-error", Signature: "internal:native", Expected: "never an internal or type error", Observed: obs, Match: map[string]string{"outcome": "internal"}}
+	}
+	return nil
+}
+
+type capped struct {
+	w io.Writer
+	n int
+}
+
+func (c *capped) Write(p []byte) (int, error) {
+	if c.n > 0 {
+		q := p
+		if len(q) > c.n {
+			q = q[:c.n]
+		}
+		c.n -= len(q)
+		c.w.Write(q) //nolint:errcheck
+	}
+	return len(p), nil
+}
+
+func firstLine(s string) string { return strings.SplitN(strings.TrimSpace(s), "\n", 2)[0] }
+
+// firstCall is the edge call of a native-graphics program (its fourth line).
+func firstCall(prog string) string {
+	l := strings.Split(prog, "\n")
+	if len(l) > 3 {
+		return l[3]
+	}
+	return prog
 }
 
 func (d *D) streamBase(idx int, ctx *core.Ctx) *core.Scenario {
@@ -358,6 +492,9 @@ func (d *D) check(sc *core.Scenario, ctx *core.Ctx) *core.Violation {
 	if sc.Level == "L2" {
 		return d.checkL2(sc, ctx)
 	}
+	if sc.Kind == "native-graphics" {
+		return d.runNative(sc, ctx)
+	}
 	if sc.Kind == "stream" {
 		// only accepted programs are this property's business: a program the
 		// parser rejects – or crashes on, which is C03's pure-input territory – is skipped and counted
@@ -531,7 +668,7 @@ func (d *D) RunItem(idx int, ctx *core.Ctx) {
 		return
 	}
 	sc.Tier = ctx.Tier
-	if idx%97 == 0 && sc.Kind != "stream" {
+	if idx%97 == 0 && sc.Kind != "stream" && sc.Kind != "native-graphics" {
 		r := core.ItemRNG(ctx.Seed, "C02-typeof", idx)
 		sc.Program = typeofProbe
 		sc.Kind = "l1:typeof-probe"
@@ -609,7 +746,7 @@ func (d *D) Describe(ev *core.Evidence, st *core.Stats) {
 	ev.Coverage["faults_injected"] = faults
 	ev.Coverage["end_classes"] = ends
 	ev.Coverage["probes"] = map[string]int64{"stream_runs_with_svg_platform": c["stream_runs_with_svg_platform"], "l2_runs": c["l2_runs"], "events_handled": c["events_handled"],
-		"runtime_type_monitor_values_checked": c["typemon_checks"], "near_valid_programs_rejected": c["near_valid_programs_rejected"], "near_valid_programs_accepted_and_run": c["near_valid_programs_accepted_and_run"], "parser_crashes_seen_and_skipped(C03)": c["parser_crash_observed_outside_scope(C03)"], "programs_rejected_by_parser": c["programs_rejected_by_parser"],
+		"runtime_type_monitor_values_checked": c["typemon_checks"], "native_process_runs_of_graphics_edge_programs": c["native_process_runs"], "near_valid_programs_rejected": c["near_valid_programs_rejected"], "near_valid_programs_accepted_and_run": c["near_valid_programs_accepted_and_run"], "parser_crashes_seen_and_skipped(C03)": c["parser_crash_observed_outside_scope(C03)"], "programs_rejected_by_parser": c["programs_rejected_by_parser"],
 		"eof_in_the_middle_of_a_line": c["fired:eof-in-the-middle-of-a-line"], "eof_before_first_byte": c["fired:eof-before-first-byte"]}
 	ev.Coverage["simulated_time_s"] = float64(c["simulated_ns"]) / 1e9
 	ev.Coverage["steps"] = c["steps"]
